@@ -1,1 +1,53 @@
 //! Facade for `lru_time_cache.rs`.
+//!
+//! `lru_time_cache` is a private module; this is a thin wrapper around
+//! `LruTimeCache<u64, u64>` that forwards every method unchanged.
+
+use crate::lru_time_cache::LruTimeCache;
+use std::time::Duration;
+
+/// `LruTimeCache<u64, u64>`.
+pub struct Lru(LruTimeCache<u64, u64>);
+
+impl Lru {
+    /// `LruTimeCache::new`.
+    pub fn new(ttl: Duration, capacity: Option<usize>) -> Self {
+        Lru(LruTimeCache::new(ttl, capacity))
+    }
+
+    /// `LruTimeCache::insert`.
+    pub fn insert(&mut self, key: u64, value: u64) {
+        self.0.insert(key, value)
+    }
+
+    /// `LruTimeCache::get`.
+    pub fn get(&mut self, key: &u64) -> Option<&u64> {
+        self.0.get(key)
+    }
+
+    /// `LruTimeCache::get_mut`.
+    pub fn get_mut(&mut self, key: &u64) -> Option<&mut u64> {
+        self.0.get_mut(key)
+    }
+
+    /// `LruTimeCache::peek`.
+    pub fn peek(&self, key: &u64) -> Option<&u64> {
+        self.0.peek(key)
+    }
+
+    /// `LruTimeCache::len`.
+    #[allow(clippy::len_without_is_empty)]
+    pub fn len(&mut self) -> usize {
+        self.0.len()
+    }
+
+    /// `LruTimeCache::remove`.
+    pub fn remove(&mut self, key: &u64) -> Option<u64> {
+        self.0.remove(key)
+    }
+
+    /// `LruTimeCache::remove_expired_values`.
+    pub fn remove_expired_values(&mut self) -> Vec<u64> {
+        self.0.remove_expired_values()
+    }
+}
